@@ -1,6 +1,7 @@
 package vm
 
 import (
+	"bytes"
 	"math/big"
 
 	"github.com/pkg/errors"
@@ -109,6 +110,19 @@ func (vm *VM) applyBlock(block *nom.AccountBlock) error {
 		computed := generated.ComputeHash()
 		if computed != block.Hash {
 			return errors.Errorf("auto-received block has different hash expected %v but got %v", computed, generated)
+		}
+		// the received block is stored as it is: everything the two checks above do not cover (plasma fields, contents
+		// of the descendant blocks) must equal the regenerated block too
+		generatedBytes, err := generated.Serialize()
+		if err != nil {
+			return err
+		}
+		receivedBytes, err := block.Serialize()
+		if err != nil {
+			return err
+		}
+		if !bytes.Equal(generatedBytes, receivedBytes) {
+			return errors.Errorf("auto-received block %v differs from the generated one outside the hashed fields", block.Hash)
 		}
 		return nil
 	default:
